@@ -450,8 +450,8 @@ def r04_7(rep: Report, idx: Index) -> None:
                          'the earlier iterations again', c, file=f.rel)
             else:
                 rep.ok(rid, f.construct(), key, 'the writer is made and flushed by the same function, once')
-    if n_sites < 2:
-        raise AnalysisError(f'only {n_sites} done() call(s) on bit-level FieldWriters found')
+    if n_sites < 1:
+        raise AnalysisError('no done() call on a bit-level FieldWriter found')
 
 
 def analyse(rep: Report) -> None:
@@ -468,7 +468,7 @@ def analyse(rep: Report) -> None:
              floor=10)
     rep.rule('R04.4', 'box header reader/writer agreement', floor=3)
     rep.rule('R04.6', 'FieldReader.read() result is never used as a value', floor=1)
-    rep.rule('R04.7', 'a bit-level FieldWriter is flushed once, by the function that made it', floor=3)
+    rep.rule('R04.7', 'a bit-level FieldWriter is flushed once, by the function that made it', floor=2)
     idx = Index(rep.repo, 'dashlive')
     layout_rule(rep, idx, 'R04.1', [MP4], 44)
     r04_2(rep, idx)
